@@ -154,39 +154,104 @@ func emitUniCases(c *Ctx, w *LeanFile, p *Pkg) error {
 	if sw == nil {
 		return fmt.Errorf("http3: handleUnidirectionalStream: `switch streamType` not found")
 	}
-	codeOf := func(n ast.Node) string { // first ErrCode… identifier below n
+	// The bookkeeping of one stream type is read off a SYMBOLIC EXECUTION of its case clause (symwalk.go), once with the
+	// bool parameter (isServer) fixed to true and once to false: same-package helpers are followed with their parameters
+	// bound to the arguments, decided conditions select their branch (so `if isServer {A} else {B}`, the flipped form
+	// and an early return are the same), a clause that does not return on every path continues after the switch.
+	//   flag: the field whose CompareAndSwap is called first ("" if none)
+	//   code: the ErrCode… constant in the first argument of the first CloseWithError call reached ("" if none)
+	boolParam := ""
+	if fd.Type.Params != nil {
+		for _, f := range fd.Type.Params.List {
+			if id, ok := f.Type.(*ast.Ident); ok && id.Name == "bool" {
+				for _, n := range f.Names {
+					if boolParam != "" {
+						return fmt.Errorf("http3: handleUnidirectionalStream: more than one bool parameter")
+					}
+					boolParam = n.Name
+				}
+			}
+		}
+	}
+	if boolParam == "" {
+		return fmt.Errorf("http3: handleUnidirectionalStream: no bool parameter (isServer)")
+	}
+	errCodeConst := func(n ast.Node) string { // first identifier below n that is a package-level constant named ErrCode…
 		code := ""
 		ast.Inspect(n, func(m ast.Node) bool {
-			if id, ok := m.(*ast.Ident); ok && code == "" && strings.HasPrefix(id.Name, "ErrCode") {
-				code = id.Name
+			if id, ok := m.(*ast.Ident); ok && code == "" && strings.HasPrefix(id.Name, "ErrCode") && id.Name != "ErrCode" {
+				if _, ok := p.Types.Scope().Lookup(id.Name).(*types.Const); ok {
+					code = id.Name
+				}
 			}
 			return true
 		})
 		return code
 	}
-	// flagAndCode: `if isFirst := c.<flag>.CompareAndSwap(false, true); !isFirst { close(code) }`
-	flagAndCode := func(stmts []ast.Stmt) (flag, code string) {
-		for _, st := range stmts {
-			is, ok := st.(*ast.IfStmt)
-			if !ok || is.Init == nil {
+	fieldOf := func(e ast.Expr) string { // c.f, &c.f, (*x).f → "f"
+		for {
+			switch x := e.(type) {
+			case *ast.ParenExpr:
+				e = x.X
 				continue
+			case *ast.UnaryExpr:
+				e = x.X
+				continue
+			case *ast.StarExpr:
+				e = x.X
+				continue
+			case *ast.SelectorExpr:
+				return x.Sel.Name
 			}
-			ast.Inspect(is.Init, func(m ast.Node) bool {
-				if ce, ok := m.(*ast.CallExpr); ok {
-					if se, ok := ce.Fun.(*ast.SelectorExpr); ok && se.Sel.Name == "CompareAndSwap" {
-						if fe, ok := se.X.(*ast.SelectorExpr); ok {
-							flag = fe.Sel.Name
-						}
-					}
-				}
+			return ""
+		}
+	}
+	fl := newFlow(p)
+	type outcome struct {
+		flag, closeCode, cancelCode     string
+		flagSeen, closeSeen, cancelSeen bool
+	}
+	run := func(stmts []ast.Stmt, rest []ast.Stmt, isServer bool) outcome {
+		var o outcome
+		sw := &symWalker{helper: fl.helper, maxDepth: 4}
+		sw.onCall = func(_, r *ast.CallExpr, _ int) bool {
+			se, ok := r.Fun.(*ast.SelectorExpr)
+			if !ok {
 				return true
-			})
-			if flag != "" {
-				code = codeOf(is.Body)
-				return
+			}
+			switch se.Sel.Name {
+			case "CompareAndSwap":
+				if !o.flagSeen {
+					o.flagSeen, o.flag = true, fieldOf(se.X)
+				}
+			case "CloseWithError":
+				if !o.closeSeen && len(r.Args) > 0 {
+					o.closeSeen, o.closeCode = true, errCodeConst(r.Args[0])
+				}
+				return false
+			case "CancelRead":
+				if !o.cancelSeen && len(r.Args) > 0 {
+					o.cancelSeen, o.cancelCode = true, errCodeConst(r.Args[0])
+				}
+				return false
+			}
+			return true
+		}
+		v := "false"
+		if isServer {
+			v = "true"
+		}
+		env := symEnv{boolParam: ast.NewIdent(v)}
+		if !sw.walk(stmts, env, 0) {
+			// the clause continues after the switch: the bookkeeping ends with the statement that does the first-stream
+			// check (what follows — reading the control stream — is not part of this fact)
+			for _, st := range rest {
+				if o.flagSeen || sw.walk([]ast.Stmt{st}, env, 0) {
+					break
+				}
 			}
 		}
-		return
+		return o
 	}
 	leanCode := func(id string) string {
 		if id == "" {
@@ -199,44 +264,23 @@ func emitUniCases(c *Ctx, w *LeanFile, p *Pkg) error {
 	defCancel := ""
 	for _, st := range sw.Body.List {
 		cc := st.(*ast.CaseClause)
+		srv, cli := run(cc.Body, after, true), run(cc.Body, after, false)
 		if cc.List == nil {
-			ast.Inspect(cc, func(m ast.Node) bool {
-				if ce, ok := m.(*ast.CallExpr); ok {
-					if se, ok := ce.Fun.(*ast.SelectorExpr); ok && se.Sel.Name == "CancelRead" {
-						defCancel = codeOf(ce)
-					}
-				}
-				return true
-			})
+			if srv.cancelCode != cli.cancelCode {
+				return fmt.Errorf("http3: handleUnidirectionalStream: the default clause cancels with different codes for server and client")
+			}
+			defCancel = srv.cancelCode
 			continue
 		}
-		flag, code := flagAndCode(cc.Body)
-		cs, ccl := code, code
-		falls := true // an empty clause (no return) continues after the switch
-		for _, b := range cc.Body {
-			if _, ok := b.(*ast.ReturnStmt); ok {
-				falls = false
-			}
-			if is, ok := b.(*ast.IfStmt); ok && is.Init == nil {
-				if id, ok := is.Cond.(*ast.Ident); ok && id.Name == "isServer" {
-					cs = codeOf(is.Body)
-					if is.Else != nil {
-						ccl = codeOf(is.Else)
-					}
-					falls = false
-				}
-			}
-		}
-		if falls && flag == "" {
-			flag, code = flagAndCode(after)
-			cs, ccl = code, code
+		if srv.flag != cli.flag {
+			return fmt.Errorf("http3: handleUnidirectionalStream: a stream type uses different first-stream flags for server and client")
 		}
 		for _, e := range cc.List {
 			tv, ok := p.Info.Types[e]
 			if !ok || tv.Value == nil {
 				return fmt.Errorf("http3: handleUnidirectionalStream: non-constant case label")
 			}
-			rows = append(rows, row{constant.ToInt(tv.Value).ExactString(), flag, leanCode(cs), leanCode(ccl)})
+			rows = append(rows, row{constant.ToInt(tv.Value).ExactString(), srv.flag, leanCode(srv.closeCode), leanCode(cli.closeCode)})
 		}
 	}
 	sort.Slice(rows, func(i, j int) bool { return rows[i].v < rows[j].v })
